@@ -274,6 +274,15 @@ func runC18Rate(t *testing.T, seed uint64, m *Mask, opt world.Options, proto str
 	limit2 := int32(1 + r.Intn(40))
 	updateAt := time.Duration(2+r.Intn(6)) * interval
 	total := time.Duration(6+r.Intn(10)) * interval
+	// an update may also change the refill interval
+	interval2 := interval
+	if update && r.Chance(0.4) {
+		interval2 = []time.Duration{10 * time.Millisecond, 50 * time.Millisecond, 100 * time.Millisecond}[r.Intn(3)]
+		if min := updateAt + 8*interval2; total < min {
+			total = min
+		}
+	}
+	perSec2 := int32(time.Second / interval2)
 	nBursts := 2 + r.Intn(5)
 	type burst struct {
 		at time.Duration
@@ -284,11 +293,15 @@ func runC18Rate(t *testing.T, seed uint64, m *Mask, opt world.Options, proto str
 		bursts = append(bursts, burst{time.Duration(r.Intn(int(total))), 1 + r.Intn(int(limit1)+10)})
 	}
 	rep := &Report{NOps: len(bursts)}
-	rep.Cell = fmt.Sprintf("rate,%s,interval=%v,limit=%d,handler=%d,update=%v->%d@%v", proto, interval, limit1, handlerLimit, update, limit2, updateAt)
+	rep.Cell = fmt.Sprintf("rate,%s,interval=%v,limit=%d,handler=%d,update=%v->%d/%v@%v", proto, interval, limit1, handlerLimit, update, limit2, interval2, updateAt)
 
 	out := world.Run(t, opt, func(e *world.Env) {
 		e.AllowUnknownArgs = true
-		e.Sched.HintMaxSleep(interval / 2)
+		if interval2 < interval {
+			e.Sched.HintMaxSleep(interval2 / 2)
+		} else {
+			e.Sched.HintMaxSleep(interval / 2)
+		}
 		e.Sched.StopAfterMain = true // the limiter's tickers are never stopped
 		pf := world.ProtoFunc(proto)
 		cfg := overloader.LimitConfig{QPSInterval: interval, MaxTotalQPS: limit1}
@@ -335,6 +348,7 @@ func runC18Rate(t *testing.T, seed uint64, m *Mask, opt world.Options, proto str
 				simrt.Sleep(updateAt)
 				c2 := cfg
 				c2.MaxTotalQPS = limit2
+				c2.QPSInterval = interval2
 				ov.Update(c2)
 				updatedAt = e.Sched.Now() - start
 			})
@@ -368,34 +382,43 @@ func runC18Rate(t *testing.T, seed uint64, m *Mask, opt world.Options, proto str
 				e.Fail("C18/rejected-call-wrong-status", "%s: call %s got %d %q %q", rep.Cell, op.Tag, op.Code, op.Msg, op.Cause)
 			}
 		}
-		once := func(l int32) int32 {
-			o := l / perSec
+		onceAt := func(l, ps int32) int32 {
+			o := l / ps
 			if o == 0 {
 				o = 1
 			}
 			return o
 		}
-		capAt := func(from, to time.Duration) (int32, int32) {
-			// capacity and refill in force for a window: the larger limit applies unless the window starts
-			// at least two intervals after the update (the bucket is clamped at the first tick after it)
+		longer, shorter := interval, interval2
+		if interval2 > interval {
+			longer, shorter = interval2, interval
+		}
+		// capacity, refill per tick and tick interval in force for a window.  Before the update: the first
+		// configuration; from two (longer) intervals after it: the second; in between the more permissive of
+		// each (the bucket is clamped, and the ticker restarted, at the update or the first tick after it)
+		capAt := func(from, to time.Duration) (int32, int32, time.Duration) {
 			if !update || updatedAt < 0 || to < updatedAt {
-				return limit1, once(limit1)
+				return limit1, onceAt(limit1, perSec), interval
 			}
-			if from >= updatedAt+2*interval {
-				return limit2, once(limit2)
+			if from >= updatedAt+2*longer {
+				return limit2, onceAt(limit2, perSec2), interval2
 			}
 			l := limit1
 			if limit2 > l {
 				l = limit2
 			}
-			return l, once(l)
+			o := onceAt(l, perSec)
+			if o2 := onceAt(l, perSec2); o2 > o {
+				o = o2
+			}
+			return l, o, shorter
 		}
 		for i := range admitted {
 			for j := i; j < len(admitted); j++ {
 				from, to := admitted[i].at, admitted[j].at
 				n := int32(j - i + 1)
-				capacity, refill := capAt(from, to)
-				ticks := int32((to-from)/interval) + 1
+				capacity, refill, iv := capAt(from, to)
+				ticks := int32((to-from)/iv) + 1
 				bound := capacity + (refill+1)*(ticks+1)
 				if n > bound {
 					e.Fail("C18/rate-above-bound", "%s: %d calls/pushes were handled in the window [%v, %v]; capacity %d + (refill %d + 1) * (%d ticks + 1) = %d (update at %v)", rep.Cell, n, from, to, capacity, refill, ticks, bound, updatedAt)
